@@ -14,6 +14,12 @@ RULE += (" Reuse: SipHash_2_4 objects fed incrementally with hash()/digest()/cop
          "CFilterMessage objects queried alternately and repeatedly with in-place edits of key / f / hashes / items, "
          "BloomFilter add / filter_bytes / filterload interleaved with edits of tweak / function_count / bit_field, and "
          "the module-level hash / Golomb functions called in sequences with different keys, seeds, ranges and p.")
+RULE += (" Second round: every generated filter (0..2000 elements) is also built by the extracted BIP158 transcription "
+         "(streaming bit writer) and read back / queried by its streaming reader and gcs_match, incl. accepted "
+         "non-canonical filters (trailing bytes, padding bits set), truncations and random byte strings; cfilter / "
+         "cfheaders messages are parsed from wire bytes (valid, truncated, bit-flipped, wrong counts); bloom filters "
+         "of 1..36001 bytes / 1..51 functions are rebuilt by the transcription of Bitcoin Core's CBloomFilter and their "
+         "filterload payload is decoded and queried as the receiving peer does, tweaks outside uint32 included.")
 TRUSTED = ["hashlib (sha256) for the filter-header chain — hash256 is a universally quantified function in the theorem",
            "modelled, not verified: Script.raw_serialize (a CompactFilter is queried through an object whose "
            "raw_serialize() returns the given bytes); GenericMessage plumbing of filterload"]
@@ -198,6 +204,98 @@ def ref_gcs_decode(b):
     return out
 
 
+# ---------------------------------------------------------------- BIP158 gcs_match / Core's CBloomFilter (references)
+
+
+class BitReader:
+    """BIP158 bit stream reader, MSB first; IndexError past the end"""
+
+    def __init__(self, data):
+        self.data = data
+        self.pos = 0
+
+    def bit(self):
+        byte = self.data[self.pos >> 3]
+        r = (byte >> (7 - (self.pos & 7))) & 1
+        self.pos += 1
+        return r
+
+    def golomb(self):
+        q = 0
+        while self.bit():
+            q += 1
+        r = 0
+        for _ in range(P):
+            r = (r << 1) | self.bit()
+        return (q << P) + r
+
+
+def ref_split_count(fb):
+    first = fb[0]
+    if first < 0xfd:
+        return first, fb[1:]
+    width = {0xfd: 2, 0xfe: 4, 0xff: 8}[first]
+    return int.from_bytes(fb[1:1 + width], "little"), fb[1 + width:]
+
+
+def ref_gcs_match(key, gcs, target, n):
+    """gcs_match of BIP158: walk the stream, stop at the first value that is not below the target"""
+    f = n * M
+    th = (ref_siphash24(key, target) * f) >> 64
+    rd = BitReader(gcs)
+    last = 0
+    for _ in range(n):
+        item = last + rd.golomb()
+        if item == th:
+            return True
+        if item > th:
+            return False
+        last = item
+    return False
+
+
+def ref_core_hash(vlen, ntweak, i, data):
+    return ref_murmur3(data, (i * 0xfba4c795 + ntweak) & 0xffffffff) % (vlen * 8)
+
+
+def ref_core_insert(v, nfuncs, ntweak, key):
+    """CBloomFilter::insert on the byte vector"""
+    if not v:
+        return
+    for i in range(nfuncs):
+        idx = ref_core_hash(len(v), ntweak, i, key)
+        v[idx >> 3] |= 1 << (7 & idx)
+
+
+def ref_core_contains(v, nfuncs, ntweak, key):
+    """CBloomFilter::contains"""
+    if not v:
+        return True
+    for i in range(nfuncs):
+        idx = ref_core_hash(len(v), ntweak, i, key)
+        if not (v[idx >> 3] & (1 << (7 & idx))):
+            return False
+    return True
+
+
+def ref_filterload_decode(p):
+    """strict deserialisation of a filterload payload: vData, nHashFuncs, nTweak, nFlags"""
+    if not p:
+        return None
+    first = p[0]
+    if first < 0xfd:
+        n, off = first, 1
+    else:
+        width = {0xfd: 2, 0xfe: 4, 0xff: 8}[first]
+        if len(p) - 1 < width:
+            return None
+        n, off = int.from_bytes(p[1:1 + width], "little"), 1 + width
+    if len(p) - off != n + 9:
+        return None
+    nf, nt = struct.unpack_from("<II", p, off + n)
+    return p[off:off + n], nf, nt, p[off + n + 8]
+
+
 # ---------------------------------------------------------------- implementation runners
 
 
@@ -287,6 +385,44 @@ def i_cfheader_chain(prev, hashes):
     return compactfilter.CFHeadersMessage(0, b"\x00" * 32, prev, list(hashes)).last_header
 
 
+def i_sip_object(key, s0, chunks):
+    o = siphash.SipHash_2_4(key, s0)
+    for c in chunks:
+        o.update(c)
+    return [o.hash(), o.digest()]
+
+
+def i_cfmsg_contains(wire, raws):
+    from io import BytesIO
+    m = compactfilter.CFilterMessage.parse(BytesIO(wire))
+    return [m.hash(), _query(m, raws)]
+
+
+def i_cfmsg_new_contains(bh, fb, raws):
+    m = compactfilter.CFilterMessage(0, bh, fb)
+    return [len(raws), _query(m, raws)]
+
+
+def i_bip158_match(key, fb, raws):
+    return [len(raws), i_cf_contains(key, fb, raws)]
+
+
+def i_cfheaders_last(wire):
+    from io import BytesIO
+    return compactfilter.CFHeadersMessage.parse(BytesIO(wire)).last_header
+
+
+def i_bloom_core_wire(size, fc, tweak, items, flag, probes):
+    """the implementation's filterload payload, decoded and queried by the reference transcription of Core"""
+    payload = _bloom(size, fc, tweak, items).filterload(flag).serialize()
+    d = ref_filterload_decode(payload)
+    if d is None:
+        return [payload, ERR]
+    v, nf, nt, fl = d
+    return [payload, v, nf, nt, fl, [ref_core_contains(v, nf, nt, q) for q in probes],
+            len(v) <= 36000 and nf <= 50]
+
+
 IMPL = {
     "encode_golomb": i_encode_golomb,
     "decode_golomb": i_decode_golomb,
@@ -315,6 +451,17 @@ IMPL = {
     "bloom_bits_spec": i_bloom_bits,
     "bit_field_to_bytes": lambda bits: helper.bit_field_to_bytes(list(bits)),
     "cfheader_chain": i_cfheader_chain,
+    "bip158_spec": lambda key, items: compactfilter.encode_gcs(key, list(items)),
+    "bip158_serialize": lambda items: compactfilter.serialize_gcs(list(items)),
+    "bip158_decompress": lambda fb: compactfilter.decode_gcs(b"", fb),
+    "bip158_match": i_bip158_match,
+    "siphash_hexdigest": lambda key, msg: siphash.SipHash_2_4(key, msg).hexdigest(),
+    "sip_object": i_sip_object,
+    "cfmsg_contains": i_cfmsg_contains,
+    "cfmsg_new_contains": i_cfmsg_new_contains,
+    "cfheaders_last": i_cfheaders_last,
+    "bloom_core_bytes": lambda size, fc, tweak, items: _bloom(size, fc, tweak, items).filter_bytes(),
+    "bloom_core_wire": i_bloom_core_wire,
 }
 
 # ---------------------------------------------------------------- property predicates (implementation only)
@@ -808,7 +955,112 @@ def p_golomb_order(seq):
     return None
 
 
-PROPS = {"cf_reserialize": p_cf_reserialize, "golomb_rt": p_golomb_rt, "pack_unpack": p_pack_unpack, "unpack_pack": p_unpack_pack, "gcs_rt": p_gcs_rt,
+def p_cf_match(key, fb, raws):
+    """CompactFilter.parse(key, fb).__contains__ == gcs_match of BIP158 on the same bytes (any filter that parses)"""
+    cf = compactfilter.CompactFilter.parse(key, fb)
+    n, gcs = ref_split_count(fb)
+    if cf.f != n * M:
+        return f"parsed filter uses F = {cf.f}, the count field says N*M = {n * M}"
+    for r in raws:
+        got = RawScript(r) in cf
+        want = ref_gcs_match(key, gcs, r, n)
+        if got != want:
+            return f"membership of {r.hex()[:24]}.. is {got}, gcs_match of BIP158 on the filter bytes gives {want}"
+    return None
+
+
+def p_reserialize_stable(key, fb):
+    """any filter that parses: its values are non-negative and non-decreasing, the bit stream starts with their
+    Golomb-Rice coding, and parse(serialize(parse(fb))) has the same values and F"""
+    cf = compactfilter.CompactFilter.parse(key, fb)
+    vals = compactfilter.decode_gcs(key, fb)
+    if any(v < 0 for v in vals) or any(a > b for a, b in zip(vals, vals[1:])):
+        return "decode_gcs returned a negative or decreasing value"
+    n, gcs = ref_split_count(fb)
+    if len(vals) != n:
+        return f"decode_gcs returned {len(vals)} values, the count field says {n}"
+    w = BitWriter()
+    last = 0
+    for v in vals:
+        w.unary((v - last) >> P)
+        w.write(v - last, P)
+        last = v
+    nbits = w.n
+    have = int.from_bytes(gcs, "big") >> (8 * len(gcs) - nbits) if nbits else 0
+    if 8 * len(gcs) < nbits or have != w.acc:
+        return "the accepted bit stream does not start with the Golomb-Rice coding of the values returned"
+    raw = cf.serialize()
+    if raw != ref_gcs_from_values(vals):
+        return "serialize() of a parsed filter is not the canonical BIP158 coding of its values"
+    cf2 = compactfilter.CompactFilter.parse(key, raw)
+    if cf2.hashes != cf.hashes or cf2.f != cf.f or cf2.serialize() != raw or not (cf2 == cf):
+        return "parse(serialize(parse(fb))) differs from parse(fb)"
+    return None
+
+
+def p_cfmsg(bh, items, tail):
+    """a cfilter message as a BIP157 peer sends it: every element is found through CFilterMessage.parse"""
+    from io import BytesIO
+    key = bh[::-1][:16]
+    fb = compactfilter.encode_gcs(key, list(items))
+    if fb != ref_bip158(key, items):
+        return "filter differs from the BIP158 construction"
+    wire = b"\x00" + bh[::-1] + ref_varint(len(fb)) + fb
+    s = BytesIO(wire + tail)
+    m = compactfilter.CFilterMessage.parse(s)
+    if s.read() != tail:
+        return "CFilterMessage.parse consumed the wrong number of bytes"
+    if m.filter_type != 0 or m.block_hash != bh or m.filter_bytes != fb or m.cf.key != key:
+        return "CFilterMessage.parse fields / key derivation"
+    missing = [i for i, it in enumerate(items) if RawScript(it) not in m]
+    if missing:
+        return f"false negative through CFilterMessage.parse: element {missing[0]} of {len(items)}"
+    if m.hash() != helper.hash256(fb) or m.cf.hash() != helper.hash256(fb):
+        return "filter hash is not hash256 of the filter bytes"
+    if not (m == compactfilter.CFilterMessage(0, bh, fb)):
+        return "parsed message differs from the constructed one"
+    return None
+
+
+def p_cfheaders_parse(stop, prev, hashes, cut):
+    from io import BytesIO
+    wire = b"\x00" + stop[::-1] + prev + ref_varint(len(hashes)) + b"".join(hashes)
+    m = compactfilter.CFHeadersMessage.parse(BytesIO(wire))
+    cur = prev
+    for fh in hashes:
+        cur = hashlib.sha256(hashlib.sha256(fh + cur).digest()).digest()
+    if m.stop_hash != stop or m.previous_filter_header != prev or m.filter_hashes != list(hashes):
+        return "CFHeadersMessage.parse fields"
+    if m.last_header != cur:
+        return "parsed last_header is not the fold of double-SHA256(filter_hash || previous_header)"
+    a = compactfilter.CFHeadersMessage(0, stop, prev, list(hashes[:cut]))
+    b = compactfilter.CFHeadersMessage(0, stop, a.last_header, list(hashes[cut:]))
+    if b.last_header != cur:
+        return "two consecutive batches do not chain to the header of the whole run"
+    return None
+
+
+def p_bloom_wire(size, fc, tweak, items, flag):
+    """the filterload payload, decoded and evaluated as Bitcoin Core does: vData = Core's insert()s, contains() holds"""
+    bf = _bloom(size, fc, tweak, items)
+    v = bytearray(size)
+    for it in items:
+        ref_core_insert(v, fc, tweak & 0xffffffff, it)
+    if bf.filter_bytes() != bytes(v):
+        return "filter_bytes() differs from the vData of Core's CBloomFilter after the same insert() calls"
+    payload = bf.filterload(flag).serialize()
+    d = ref_filterload_decode(payload)
+    if d != (bytes(v), fc, tweak, flag):
+        return "the filterload payload does not decode to (vData, nHashFuncs, nTweak, nFlags)"
+    for it in items:
+        if not ref_core_contains(d[0], d[1], d[2], it):
+            return f"false negative on the wire: Core's contains() fails for an added element (size {size}, {fc} functions, tweak {tweak})"
+    return None
+
+
+PROPS = {"cf_match": p_cf_match, "reserialize_stable": p_reserialize_stable, "cfmsg": p_cfmsg,
+         "cfheaders_parse": p_cfheaders_parse, "bloom_wire": p_bloom_wire,
+         "cf_reserialize": p_cf_reserialize, "golomb_rt": p_golomb_rt, "pack_unpack": p_pack_unpack, "unpack_pack": p_unpack_pack, "gcs_rt": p_gcs_rt,
          "cf_members": p_cf_members, "siphash_vector": p_siphash_vector, "siphash_ref": p_siphash_ref,
          "sipround": p_sipround, "murmur_vector": p_murmur_vector, "murmur_ref": p_murmur_ref, "bloom": p_bloom,
          "bloom_vectors": p_bloom_vectors, "bip158_vector": p_bip158_vector, "cfheader_chain": p_cfheader_chain,
@@ -1109,6 +1361,143 @@ def generate(ctx):
         hs = [ctx.rbytes(32) for _ in range(n)]
         yield ("prop", "cfheader_chain", [prev, hs])
         yield ("corr", "cfheader_chain", [prev, hs])
+
+    # ---- second round: the BIP158 / Core transcriptions, converses, message classes, SipHash object API
+    yield ("corr", "bip158_spec", [bytes.fromhex("43497fd7f826957108f4a30fd9cec3ae"), [GENESIS_SPK]])
+    yield ("corr", "bip158_serialize", [[56103, 1303493, 2309825]])
+    yield ("corr", "bip158_decompress", [bytes.fromhex("019dfca8")])
+    yield ("corr", "bip158_match", [bytes.fromhex("43497fd7f826957108f4a30fd9cec3ae"), bytes.fromhex("019dfca8"), [GENESIS_SPK, b"x"]])
+    sizes = [0, 1, 2, 3, 5, 8] + [r.randrange(0, 30) for _ in range(ctx.n(40, 800))] + \
+        [r.randrange(30, 300) for _ in range(ctx.n(4, 60))] + [r.randrange(300, 2001) for _ in range(ctx.n(1, 6))]
+    for n in sizes:
+        key = r.choice([ctx.rbytes(16), ctx.rbytes(16), bytes(16), b"\xff" * 16])
+        items = [rscript(ctx, r) for _ in range(n)]
+        if n >= 2 and r.random() < 0.3:
+            items[r.randrange(n)] = items[r.randrange(n)]
+        others = [rscript(ctx, r) for _ in range(4)] + [b""]
+        fb = compactfilter.encode_gcs(key, list(items))
+        ctx.label("bip158-spec/n=0" if n == 0 else "bip158-spec/n<30" if n < 30 else "bip158-spec/n>=30")
+        yield ("corr", "bip158_spec", [key, items])
+        yield ("corr", "bip158_decompress", [fb])
+        if n <= 300:
+            yield ("corr", "bip158_match", [key, fb, items[:25] + others])
+            yield ("prop", "cf_match", [key, fb, items[:40] + others])
+            yield ("prop", "reserialize_stable", [key, fb])
+        # accepted but not canonical: bytes after the last value, padding bits set
+        for kind in range(3):
+            if kind == 0:
+                nc = fb + ctx.rbytes(r.randrange(1, 5))
+            elif kind == 1:
+                pad = -(sum(((v - l) >> P) + 1 + P for v, l in zip(ref_hashed(key, items), [0] + ref_hashed(key, items))) % 8) % 8
+                nc = fb[:-1] + bytes([fb[-1] | ((1 << pad) - 1)]) if n and pad else fb + b"\xff"
+            else:
+                nc = fb[: r.randrange(0, len(fb) + 1)]          # truncated: both sides raise unless n = 0
+            ctx.label("bip158-spec/non-canonical" if kind < 2 else "bip158-spec/truncated")
+            yield ("corr", "bip158_decompress", [nc])
+            yield ("corr", "decode_gcs", [nc])
+            if n <= 300:
+                yield ("corr", "bip158_match", [key, nc, items[:10] + others])
+                yield ("corr", "cf_reserialize", [key, nc])
+                if kind < 2:
+                    yield ("prop", "cf_match", [key, nc, items[:20] + others])
+                    yield ("prop", "reserialize_stable", [key, nc])
+    for _ in range(ctx.n(40, 1500)):        # arbitrary bytes: whatever parses must agree with the BIP's reader
+        fb = bytes([r.randrange(0, 4)]) + ctx.rbytes(r.randrange(0, 14))
+        key = ctx.rbytes(16)
+        qs = [ctx.rbytes(r.randrange(0, 8)) for _ in range(3)]
+        yield ("corr", "bip158_decompress", [fb])
+        yield ("corr", "bip158_match", [key, fb, qs])
+        try:
+            compactfilter.decode_gcs(b"", fb)
+        except Exception:
+            ctx.label("bip158-spec/random-rejected")
+            continue
+        ctx.label("bip158-spec/random-accepted")
+        yield ("prop", "cf_match", [key, fb, qs])
+        yield ("prop", "reserialize_stable", [key, fb])
+    for kl in (0, 15, 17):
+        yield ("corr", "bip158_match", [ctx.rbytes(kl), bytes.fromhex("019dfca8"), [b"a"]])
+        yield ("corr", "bip158_spec", [ctx.rbytes(kl), [b"a"]])
+    for n in [0, 1, 2, 5, 253, 300] + [r.randrange(0, 40) for _ in range(ctx.n(20, 400))]:
+        vals = sorted(r.randrange(0, max(1, n) * M) for _ in range(n))
+        yield ("corr", "bip158_serialize", [vals])
+    for _ in range(ctx.n(10, 100)):         # unsorted: negative deltas, what the code does
+        yield ("corr", "bip158_serialize", [[r.randrange(0, 5 * M) for _ in range(r.randrange(0, 6))]])
+
+    # SipHash object API
+    yield ("corr", "siphash_hexdigest", [bytes(range(16)), b"\x00"])
+    for n in list(range(0, 20)) + [r.randrange(20, 200) for _ in range(ctx.n(10, 200))]:
+        key = ctx.rbytes(16)
+        msg = ctx.rbytes(n)
+        yield ("corr", "siphash_hexdigest", [key, msg])
+        cut = r.randrange(0, n + 1)
+        rest = msg[cut:]
+        c2 = r.randrange(0, len(rest) + 1)
+        yield ("corr", "sip_object", [key, msg[:cut], [rest[:c2], rest[c2:]]])
+        yield ("corr", "sip_object", [key, msg, []])
+    for kl in (0, 15, 17):
+        yield ("corr", "siphash_hexdigest", [ctx.rbytes(kl), b"abc"])
+        yield ("corr", "sip_object", [ctx.rbytes(kl), b"abc", [b"d"]])
+
+    # BIP157 messages
+    for n in [0, 1, 2, 3] + [r.randrange(0, 25) for _ in range(ctx.n(25, 500))] + [r.randrange(25, 400) for _ in range(ctx.n(2, 30))]:
+        bh = ctx.rbytes(32)
+        items = [rscript(ctx, r) for _ in range(n)]
+        if n >= 2 and r.random() < 0.3:
+            items[0] = items[1]
+        tail = ctx.rbytes(r.choice([0, 0, 1, 5]))
+        fb = compactfilter.encode_gcs(bh[::-1][:16], list(items))
+        wire = b"\x00" + bh[::-1] + ref_varint(len(fb)) + fb
+        others = [rscript(ctx, r) for _ in range(3)]
+        ctx.label("cfmsg/valid")
+        yield ("prop", "cfmsg", [bh, items, tail])
+        yield ("corr", "cfmsg_contains", [wire + tail, items[:20] + others])
+        yield ("corr", "cfmsg_new_contains", [bh, fb, items[:20] + others])
+        if n < 25:
+            ctx.label("cfmsg/malformed")
+            yield ("corr", "cfmsg_contains", [wire[: r.randrange(0, len(wire))], items[:3] + others])
+            bad = bytearray(wire)
+            bad[r.randrange(len(bad))] ^= 1 << r.randrange(8)
+            yield ("corr", "cfmsg_contains", [bytes(bad), items[:3] + others])
+            yield ("corr", "cfmsg_new_contains", [bh[: r.randrange(0, 32)], fb, items[:3]])
+            yield ("corr", "cfmsg_new_contains", [bh, fb[: r.randrange(0, len(fb) + 1)], items[:3]])
+    yield ("corr", "cfmsg_contains", [b"", [b"a"]])
+    for n in [0, 1, 2, 3, 252, 253] + [r.randrange(0, 12) for _ in range(ctx.n(15, 300))]:
+        stop, prev = ctx.rbytes(32), ctx.rbytes(32)
+        hs = [ctx.rbytes(32) for _ in range(n)]
+        wire = b"\x00" + stop[::-1] + prev + ref_varint(n) + b"".join(hs)
+        ctx.label("cfheaders/parse")
+        yield ("prop", "cfheaders_parse", [stop, prev, hs, r.randrange(0, n + 1)])
+        yield ("corr", "cfheaders_last", [wire])
+        yield ("corr", "cfheaders_last", [wire + ctx.rbytes(3)])
+        if n < 12:
+            yield ("corr", "cfheaders_last", [wire[: r.randrange(0, len(wire) + 1)]])     # short reads
+            yield ("corr", "cfheaders_last", [b"\x00" + stop[::-1] + prev + ref_varint(n + r.randrange(1, 4)) + b"".join(hs)])
+
+    # Bitcoin Core's CBloomFilter on the wire bytes
+    core_items = [bytes.fromhex(h) for h in ("99108ad8ed9bb6274d3980bab5a85c048f0950c8", "b5a2c786d9ef4658287ced5914b37a1b4aa32eee",
+                                             "b9300670b4c5366e95b2699e8b18bc75e5f729c5")]
+    yield ("corr", "bloom_core_bytes", [3, 5, 0, core_items])
+    yield ("corr", "bloom_core_wire", [3, 5, 2147483649, core_items, 1, core_items + [b"abc"]])
+    cfgs = [(1, 1), (1, 50), (2, 3), (10, 5), (252, 7), (253, 7), (256, 3)]
+    cfgs += [(r.randrange(1, 40), r.randrange(1, 51)) for _ in range(ctx.n(40, 1200))]
+    cfgs += [(r.randrange(40, 1500), r.randrange(1, 51)) for _ in range(ctx.n(8, 150))]
+    cfgs += [(36000, 50), (36001, 51), (65536 // 8 + 1, 2)]
+    for (size, fc) in cfgs:
+        tweak = r.choice(tweaks + [r.getrandbits(32)] * 3)
+        items = [r.choice([ctx.rbytes(20), ctx.rbytes(32), ctx.rbytes(36), rscript(ctx, r), b""]) for _ in range(r.randrange(0, 6 if size < 2000 else 3))]
+        probes = items + [ctx.rbytes(r.randrange(0, 40)) for _ in range(4)]
+        flag = r.choice([0, 1, 2, 255])
+        ctx.label("bloom-core/size>=253" if size >= 253 else "bloom-core/size<253")
+        yield ("prop", "bloom_wire", [size, fc, tweak, items, flag])
+        yield ("corr", "bloom_core_wire", [size, fc, tweak, items, flag, probes])
+        if size < 2000:
+            yield ("corr", "bloom_core_bytes", [size, fc, tweak, items])
+    for tweak in (2 ** 32, 2 ** 32 + 5, -1, 2 ** 40 + 7, -(2 ** 33) - 3):      # seeds >= 2^32 / negative: Core reduces, add() does not
+        ctx.label("bloom-core/tweak-outside-uint32")
+        yield ("corr", "bloom_core_bytes", [7, 9, tweak, [b"abc", b"", ctx.rbytes(33)]])
+        yield ("corr", "bloom_core_wire", [7, 9, tweak, [b"abc"], 1, [b"abc"]])       # filterload raises
+    yield ("corr", "bloom_core_wire", [5, 3, 7, [b"abc"], 256, [b"abc"]])
 
     # ---- one object used repeatedly: stale memoised state, coarse module-level caches
     for _ in range(ctx.n(20, 300)):
